@@ -175,15 +175,65 @@ def cmp_ok(e):
     if k in ('col', 'con'): return cmp_ok(e[1])
     raise ValueError(e)
 
+def elem_views(e):
+    """typed input forms: list of (name, f, nestable) where f(var) is a Rust expression that turns
+    `var: &Owned` into a value the region's Push accepts; nestable = usable inside a closure"""
+    k = e[0]
+    P = lambda v: f'({v})'
+    if k == 'own':
+        return [('ref', lambda v: v, True), ('slice', lambda v: f'{P(v)}.as_slice()', True),
+                ('owned', lambda v: f'{P(v)}.clone()', True),
+                ('refslice', lambda v: f'&{P(v)}.as_slice()', False),
+                ('iter', lambda v: f'PushIter({P(v)}.iter().copied())', True)]
+    if k in ('mir', 'vecr'):
+        return [('ref', lambda v: v, True), ('val', lambda v: f'*{P(v)}', True), ('refref', lambda v: f'&{P(v)}', False)]
+    if k in ('str', 'strof'):
+        return [('ref', lambda v: v, True), ('str', lambda v: f'{P(v)}.as_str()', True),
+                ('owned', lambda v: f'{P(v)}.clone()', True), ('refstr', lambda v: f'&{P(v)}.as_str()', False)]
+    if k in ('sl', 'cols'):
+        out = []
+        if ref_ok(e[1]):
+            out += [('ref', lambda v: v, True), ('slice', lambda v: f'{P(v)}.as_slice()', True)]
+            if k == 'sl': out.append(('refref', lambda v: f'&{P(v)}', False))
+            if k == 'cols': out.append(('iter', lambda v: f'PushIter({P(v)}.iter())', True))
+        for n, f, nest in elem_views(e[1])[:4]:
+            if nest:
+                out.append((f'vec_{n}', (lambda f: lambda v: f'{P(v)}.iter().map(|y| {f("y")}).collect::<Vec<_>>()')(f), True))
+        return out
+    if k == 'opt':
+        out = [('ref', lambda v: v, True)] if ref_ok(e[1]) else []
+        for n, f, nest in elem_views(e[1])[:4]:
+            if nest:
+                out.append((f'opt_{n}', (lambda f: lambda v: f'{P(v)}.as_ref().map(|y| {f("y")})')(f), True))
+        return out
+    if k == 'res':
+        out = [('ref', lambda v: v, True)] if ref_ok(e) else []
+        va = [x for x in elem_views(e[1]) if x[2]]; vb = [x for x in elem_views(e[2]) if x[2]]
+        for i in range(min(4, max(len(va), len(vb)))):
+            na, fa, _ = va[i % len(va)]; nb, fb, _ = vb[i % len(vb)]
+            out.append((f'res_{na}_{nb}', (lambda fa, fb: lambda v: f'match {P(v)} {{ Ok(a) => Ok({fa("a")}), Err(b) => Err({fb("b")}) }}')(fa, fb), True))
+        return out
+    if k == 'tup2':
+        out = [('ref', lambda v: v, True)] if ref_ok(e) else []
+        va = [x for x in elem_views(e[1]) if x[2]]; vb = [x for x in elem_views(e[2]) if x[2]]
+        for i in range(min(4, max(len(va), len(vb)))):
+            na, fa, _ = va[i % len(va)]; nb, fb, _ = vb[i % len(vb)]
+            out.append((f'tup_{na}_{nb}', (lambda fa, fb: lambda v: f'({fa(f"&{P(v)}.0")}, {fb(f"&{P(v)}.1")})')(fa, fb), True))
+        return out
+    if k == 'con':
+        return elem_views(e[1])
+    if k == 'col':
+        ik = item_kind(e[1])
+        allow = {'slice': ('ref', 'slice', 'owned'), 'str': ('ref', 'str', 'owned'), 'val': ('val',)}.get(ik, ())
+        return [x for x in elem_views(e[1]) if x[0] in allow]
+    raise ValueError(e)
+
 def forms(e):
     """the input forms offered for an entry: list of (name, rust expression over `self`, `v: &Owned`)"""
     fs = [('borrowed_item', 'push_borrowed(self, v)')]
-    if ref_ok(e): fs.append(('ref', 'Push::push(self, v)'))
-    fs += extra_forms(e)
+    for n, f, _ in elem_views(e):
+        fs.append((n, f'Push::push(self, {f("v")})'))
     return fs
-
-def extra_forms(e):
-    return []
 
 def gen_rust():
     out = ['// GENERATED by tools/catalogue.py -- do not edit', '#![allow(unused_imports)]',
